@@ -1,6 +1,7 @@
 import ScenicModel.Props.C06Resolve
 import ScenicModel.Props.C06Perm
 import ScenicModel.Props.C06Merge
+import ScenicModel.Props.C06Eval
 
 /-!
 # C06 -- specifier resolution follows the documented priorities, whatever the order
@@ -9,9 +10,12 @@ Model: `ScenicModel/Model/Specifiers.lean`.  Theorems (all for arbitrary classes
 
 * `resolve_spec`, `resolve_modifier` -- each property goes to its unique highest-priority specifier
   (then at most one modifier), else to the default of the class;
-* `topo_order`, `topo_order_single_modifiable`, `evaluated_once` -- every specifier is evaluated once,
-  after everything it depends on is final;
-* `dup_name_reported`, `final_reported`, `tie_reported`, `missing_dep_reported`, `cycle_reported`,
+* `topo_order`, `topo_order_full`, `modifier_after_specifier`, `evaluated_once` -- every specifier is
+  evaluated once, after everything it depends on is final;
+* `evaluate_ok`, `evaluate_total` (`Props/C06Eval.lean`) -- the evaluation loop itself: every dependency read
+  is present and final, the source's assertion cannot fail, each property ends with the value of its
+  modifier, else of its specifier;
+* `dup_name_reported`, `final_reported_partial` (+ `final_by_modifier_unreported_witness`), `tie_reported`, `missing_dep_reported`, `cycle_reported`,
   `error_kinds_sound`, `cycle_error_sound`, `resolve_never_fuel` -- the errors;
 * `resolve_perm_invariant`, `resolve2D_perm_invariant`, `builtin_single_modifier`,
   `builtin_perm_invariant` -- the outcome does not depend on the order;
